@@ -168,11 +168,32 @@ def gen_tc(rng, tier):
         flags.append("noedns")
     if not flags:
         flags.append("none")
-    c.insert(0, "servers=1 flags=" + ",".join(flags))
+    # retry budget: with one server a query may be transmitted `tries` times.  The switch to TCP
+    # after a truncated answer must not cost a try: minimal budgets (tries=1) and budgets that
+    # earlier failures have used up to the last attempt put the TC answer on the final attempt.
+    r = rng.random()
+    tries = 1 if r < 0.35 else 2 if r < 0.55 else 3 if r < 0.7 else 0
+    c.insert(0, "servers=1 flags=" + ",".join(flags) + (" tries=%d timeout=1000" % tries if tries else ""))
     ops = ["note fam=tc"]
     k = rng.choice([1, 1, 2, 3, 4])
     for T in range(1, k + 1):
         ops.append("send %d %s IN %s rd" % (T, name(T), rng.choice(TYPES)))
+    if tries > 1 and rng.random() < 0.6:
+        # use up all attempts but the last one, then answer truncated
+        for _ in range(tries - 1):
+            if rng.random() < 0.7:
+                ops.append("rspall rcode=%s" % rng.choice(["SERVFAIL", "SERVFAIL", "REFUSED", "NOTIMP"]))
+            else:
+                ops.append("adv 5000")
+                ops.append("proct")
+            ops.extend(RUN)
+        ops.append("rspall tc=1")
+        ops.extend(RUN)
+        ops.append("rspall " + answer(rng))
+        ops.extend(RUN)
+        ops.append("rspall " + answer(rng))
+        ops.extend(RUN)
+        return " ".join(c) + "|" + ";".join(ops)
     if rng.random() < 0.3:
         ops.append("zerolen s0")
     order = list(range(k))
